@@ -136,6 +136,10 @@ const (
 
 	configTelemetryEnabled         = "telemetry.enabled"
 	configTelemetryIntervalSeconds = "telemetry.interval.seconds"
+
+	// Environment variables overriding the telemetry settings.
+	envTelemetryEnabled         = "LIFTBRIDGE_TELEMETRY_ENABLED"
+	envTelemetryIntervalSeconds = "LIFTBRIDGE_TELEMETRY_INTERVAL_SECONDS"
 )
 
 var configKeys = map[string]struct{}{
@@ -504,8 +508,17 @@ func NewConfig(configFile string) (*Config, error) { // nolint: gocyclo
 		v      = viper.New()
 	)
 
+	// The telemetry settings can also be given through the environment
+	// (LIFTBRIDGE_TELEMETRY_ENABLED=false is the documented opt-out), with
+	// or without a configuration file. The config keys use dots, which
+	// AutomaticEnv cannot map to these variable names, so bind them
+	// explicitly.
+	_ = v.BindEnv(configTelemetryEnabled, envTelemetryEnabled)
+	_ = v.BindEnv(configTelemetryIntervalSeconds, envTelemetryIntervalSeconds)
+
 	// Return default config if config file is not given.
 	if configFile == "" {
+		parseTelemetryConfig(config, v)
 		return config, nil
 	}
 
